@@ -118,9 +118,9 @@ def run(r):
     quick = r.tier == "quick"
     r.trusted += TRUSTED_COMMON + [
         "exporter of uiua::Node trees to the model's node type (harness/src/lib.rs Export), arities taken from the primitive tables at export time",
-        "primitives are abstract in the theorems (any psem); that a primitive pops/pushes what its table entry says is checked only by the correspondence and the sentinel search",
+        "primitives are abstract in the theorems (any psem); that a primitive pops/pushes what its table entry says, and that the array side of an iterating modifier pushes sa values / pops so results per step, is checked only by the correspondence, the sentinel search and the frame hook (src/run.rs verif_frame_enter/exit, behind feature verif_hooks) on generated and corpus programs",
     ]
-    r.assumptions += ["trees satisfy tree_okb (stored operand signatures fit the checker's, exactly for by/rows/each/inventory; operands of iterating modifiers leave the under stack alone; no switch: its case is not proved yet) - measured on compiled programs every run",
+    r.assumptions += ["trees satisfy tree_okb (stored operand signatures fit the checker's, exactly for by/rows/each/inventory/repeat; operands of iterating modifiers and switch branches leave the under stack alone; switch branches fit the switch signature) - measured on compiled programs every run",
                       "signatures below 2^16 (u16 truncation not modelled)", "results Unk (construct outside the interpreter model) and OOF (fuel) are excluded by the statements"]
     if not r.harness(["c02"]):
         return
@@ -143,8 +143,27 @@ def run(r):
             continue
         seen.add(key)
         r.violation(key, "frame law fails on the implementation: %s (signature %s, program %r)" % (v["what"], v["sig"], v["src"]), v, theorem="C02_sig_sound")
-    r.coverage["evaluations"] = a[0] + b[0] + (summ[0]["ok_runs"] + summ[0]["err_runs"] if summ else 0)
+    # monitor: the frame hook around every function / operand execution of real corpus programs (arrays,
+    # every modifier the corpus uses): ties what the model abstracts (iteration over arrays) to the code
+    rc, out, err = run_bin("c02", ["monitor", 400 if quick else 100000], seed=r.seed, timeout=1500)
+    recs = json_lines(out)
+    msumm = [x for x in recs if x.get("summary")]
+    mviols = [x for x in recs if "violation" in x]
+    if rc != 0 or not msumm:
+        r.broken_obligation("monitor-harness", "c02 monitor failed to run", (out + err)[-2000:])
+    r.coverage["monitor"] = dict(msumm[0] if msumm else {}, kind="frame hook on corpus programs")
+    r.log("monitor: %s" % (msumm[0] if msumm else "no summary"))
+    for p in [x for x in recs if "panic" in x][:3]:
+        r.violation("panic|" + p["src"], "the interpreter panicked on a corpus program", p, theorem="C09")
+    for v in mviols:
+        key = "%s|%s|%s" % (v["violation"], v["src"], v["what"])
+        if key in seen:
+            continue
+        seen.add(key)
+        r.violation(key, "frame law fails on the implementation: %s (program %r)" % (v["what"], v["src"]), v, theorem="C02_sig_sound")
+    r.coverage["evaluations"] = a[0] + b[0] + (summ[0]["ok_runs"] + summ[0]["err_runs"] if summ else 0) + (msumm[0]["monitored_programs"] if msumm else 0)
     r.coverage["distinct_nontrivial"] = a[1] + b[1]
     r.coverage["rule"] = ("V: every distinct function body/operand/root of compiled corpus chunks (tests/, examples/) - distinct as exported terms; "
                           "C: generated integer programs over dip/gap/on/by/with/off/below/both/fork/bracket/try/case/switch/calls - distinct sources; "
-                          "search: generated functions run on sentinels + arguments (+2 extra values beneath)")
+                          "search: generated functions run on sentinels + arguments (+2 extra values beneath), with the frame hook (values beneath every operand's arguments unchanged on return and at failure, hidden stacks restored) on; "
+                          "monitor: the same hook on compiled corpus chunks")
